@@ -26,12 +26,25 @@ KNOWN_FILE = os.path.join(ROOT, "known_findings.json")
 def _reexec_if_needed():
     """PYTHONHASHSEED must be fixed before the interpreter starts."""
     want = os.environ.get("VERIF_HASHSEED", "0")
-    if os.environ.get("PYTHONHASHSEED") != want:
+    # VERIF_REPO: run against another checkout of the repository (used by
+    # the mutant/seeded-change tooling with scratch worktrees); default is
+    # /repo's working tree through the editable install.
+    repo = os.environ.get("VERIF_REPO", "/repo")
+    src = os.path.join(repo, "src")
+    pp = os.environ.get("PYTHONPATH", "")
+    need_path = repo != "/repo" and src not in pp.split(os.pathsep)
+    if os.environ.get("PYTHONHASHSEED") != want or need_path:
         env = dict(os.environ)
         env["PYTHONHASHSEED"] = want
-        env.setdefault("PSYCLONE_CONFIG", "/repo/config/psyclone.cfg")
+        if need_path:
+            env["PYTHONPATH"] = src + (os.pathsep + pp if pp else "")
+            env["PSYCLONE_CONFIG"] = os.path.join(repo, "config",
+                                                  "psyclone.cfg")
+        env.setdefault("PSYCLONE_CONFIG",
+                       os.path.join(repo, "config", "psyclone.cfg"))
         os.execve(sys.executable, [sys.executable] + sys.argv, env)
-    os.environ.setdefault("PSYCLONE_CONFIG", "/repo/config/psyclone.cfg")
+    os.environ.setdefault("PSYCLONE_CONFIG",
+                          os.path.join(repo, "config", "psyclone.cfg"))
     # Switches /verif's own monkey-patch seams on; no repo code reads it.
     os.environ.setdefault("SVALAT_PSYCLONE_VERIF", "1")
 
@@ -225,8 +238,10 @@ def main(argv=None):
     plan = dict(check.plan(args.tier))
     if args.runs:
         plan["runs"] = args.runs
+    import psyclone
     print(f"vcheck {prop} tier={args.tier} VERIF_SEED={args.seed} "
-          f"runs={plan['runs']} workers={args.workers}", flush=True)
+          f"runs={plan['runs']} workers={args.workers} psyclone="
+          f"{os.path.dirname(psyclone.__file__)}", flush=True)
 
     exit_code = 0
     violations = []     # (class, replay path)
